@@ -103,7 +103,7 @@ def encpy(v, depth=0):
         return ["d", hexbits(v)]
     if t is str:
         return ["s", v]
-    if depth > 40:
+    if depth > 400:
         return ["deep"]
     if t is list:
         return ["l", [encpy(x, depth + 1) for x in v]]
